@@ -33,11 +33,12 @@ def run(ctx):
     ctx.mc("MC_SetClasses", cfg="MC_SetClasses" if ctx.quick else "MC_SetClasses_t", workers=12,
            universe="classes of all tuples of involutions = classes of tuples with normal-form first operation, n <= %s (dim 1,2,3)" % ("6,5,4" if ctx.quick else "7,6,5"))
     # "u" runs lie beyond the universe: validity, numbering and pairwise non-isomorphism only (no completeness half)
-    runs = "1:8,2:6,3:5,2:10u,3:8u" if ctx.quick else "1:10,2:7,3:6,1:14u,2:11u,3:9u"
+    # "v" runs: validity of every output only
+    runs = "1:8,2:6,3:5,2:10u,3:8u,3:10v" if ctx.quick else "1:10,2:7,3:6,1:14u,2:11u,3:9u,3:11v,2:13v"
     ev = ctx.work / "events.ndjson"
     ctx.dsv("C06", "drive", "--out", ev, "--runs", runs, timeout=3600)
     for ln in open(ev):
-        if '"dset_emit"' in ln:
+        if '"dset_emit"' in ln or '"dset_valid"' in ln:
             e = json.loads(ln)
             if "set" in e and e["set"]["n"] >= 2:
                 ctx.nontrivial.add(json.dumps(e["set"], sort_keys=True))
